@@ -14,7 +14,7 @@ CONSTANTS
   MaxViewOps = 2
   MaxPost = 0
   BuildKinds = {"elem", "text", "frag"}
-  GModes = {"all", "allRejB"}
+  GModes = {"allRejB"}
   GListNames = {"a", "*"}
   GKinds = {"it", "rg"}
   GMut = {"struct", "text"}
